@@ -1,0 +1,39 @@
+//go:build verif
+
+// Contracts for the deductive checker in /verif (gvc). Comments only.
+
+package main
+
+//@ property C19
+
+// The two file endpoints. What reaches the file system is the route parameter, and only when it is a plain base
+// name; the file is created exclusively inside the capture directory; a capture is queued for import once, and
+// only after it was stored and closed without an error; nothing is removed unless this request created it.
+// Assumed (not proved here): chi hands the handler the decoded route parameter; filepath.Base(x) == x holds only
+// for names without a separator (and not for "..": see the stand-in); filepath.Join of a directory and such a name
+// stays inside the directory; O_EXCL makes the open fail when the name exists.
+//@ log os.OpenFile
+//@ log os.Remove
+//@ log io.Copy
+//@ log (*github.com/spq/pkappa2/internal/index/manager.Manager).ImportPcaps
+//@ func setupRouter$2
+//@   nosafety
+//@   noframe
+//@   assert before call path/filepath.Join#2: in_dir: len(arg0) == 3 && arg0[2] == resultof("github.com/go-chi/chi/v5.URLParam#1")
+//@   assert before call os.OpenFile#1: base_name: resultof("github.com/go-chi/chi/v5.URLParam#1") == resultof("path/filepath.Base#1")
+//@   assert before call os.OpenFile#1: joined: arg0 == resultof("path/filepath.Join#2")
+//@   assert before call os.OpenFile#1: exclusive: (arg1 / 64) % 2 == 1 && (arg1 / 128) % 2 == 1
+//@   assert before call io.Copy#1: created: isnil(resultof("os.OpenFile#1", 1))
+//@   assert before call os.Remove#1: own_file: isnil(resultof("os.OpenFile#1", 1)) && arg0 == resultof("path/filepath.Join#2")
+//@   assert before call os.Remove#2: own_file: isnil(resultof("os.OpenFile#1", 1)) && arg0 == resultof("path/filepath.Join#2")
+//@   assert before call (*github.com/spq/pkappa2/internal/index/manager.Manager).ImportPcaps#1: stored: isnil(resultof("io.Copy#1", 1)) && isnil(resultof("(*os.File).Close#2")) && \
+//@       len(arg1) == 1 && arg1[0] == resultof("github.com/go-chi/chi/v5.URLParam#1")
+//@   ensures once: ncalls("(*github.com/spq/pkappa2/internal/index/manager.Manager).ImportPcaps") <= 1 && ncalls("os.OpenFile") <= 1
+//@   ensures kept: implies(ncalls("(*github.com/spq/pkappa2/internal/index/manager.Manager).ImportPcaps") == 1, ncalls("os.Remove") == 0)
+
+//@ func setupRouter$15
+//@   nosafety
+//@   noframe
+//@   assert before call path/filepath.Join#1: in_dir: len(arg0) == 3 && arg0[2] == resultof("github.com/go-chi/chi/v5.URLParam#1")
+//@   assert before call net/http.ServeFile#1: base_name: resultof("github.com/go-chi/chi/v5.URLParam#1") == resultof("path/filepath.Base#1")
+//@   assert before call net/http.ServeFile#1: joined: arg2 == resultof("path/filepath.Join#1")
